@@ -41,14 +41,49 @@ def sort_of(et):
 
 
 class SList(object):
-    """list value: arr : Array Int <et>, ln : Int; nested lists carry ilen : Array Int Int (lengths of the rows)"""
-    __slots__ = ('arr', 'ln', 'et', 'ilen')
+    """list value: arr : Array Int <et>, ln : Int.
+    nested lists carry ilen : Array Int Int (the lengths of the rows) and, when the rows are nested themselves (depth 3),
+    isub : Array Int (Array Int Int) (for every row, the lengths of ITS rows).  Depth > 3 is not supported."""
+    __slots__ = ('arr', 'ln', 'et', 'ilen', 'isub')
 
-    def __init__(self, arr, ln, et, ilen=None):
-        self.arr, self.ln, self.et, self.ilen = arr, ln, et, ilen
+    def __init__(self, arr, ln, et, ilen=None, isub=None):
+        self.arr, self.ln, self.et, self.ilen, self.isub = arr, ln, et, ilen, isub
 
     def nested(self):
         return isinstance(self.et, tuple)
+
+    def deep(self):
+        return isinstance(self.et, tuple) and isinstance(self.et[1], tuple)
+
+    def row(self, i):
+        """element i: a z3 term, or the row as an SList"""
+        v = z3.Select(self.arr, i)
+        if not self.nested():
+            return v
+        inner = SList(v, z3.Select(self.ilen, i), self.et[1])
+        if inner.nested():
+            if isinstance(inner.et[1], tuple):
+                raise Unsupported('lists nested deeper than 3 levels')
+            inner.ilen = z3.Select(self.isub, i)
+        return inner
+
+    def with_row(self, i, val):
+        """functional update  self[i] = val  (val: z3 term or SList)"""
+        if isinstance(val, SList):
+            if not self.nested():
+                raise Unsupported('storing a list into a flat list')
+            isub = self.isub
+            if self.deep():
+                if not val.nested():
+                    raise Unsupported('row nesting mismatch')
+                isub = z3.Store(self.isub, i, val.ilen)
+            return SList(z3.Store(self.arr, i, val.arr), self.ln, self.et, z3.Store(self.ilen, i, val.ln), isub)
+        if self.nested():
+            raise Unsupported('storing a scalar into a nested list')
+        return SList(z3.Store(self.arr, i, val), self.ln, self.et)
+
+    def resized(self, ln):
+        return SList(self.arr, ln, self.et, self.ilen, self.isub)
 
 
 class STuple(object):
@@ -98,6 +133,8 @@ def fresh_list(name, et, ln=None):
     s = SList(fresh(name, z3.ArraySort(I, sort_of(et))), ln if ln is not None else fresh(name + '_len', I), et)
     if s.nested():
         s.ilen = fresh(name + '_ilen', z3.ArraySort(I, I))
+    if s.deep():
+        s.isub = fresh(name + '_isub', z3.ArraySort(I, z3.ArraySort(I, I)))
     return s
 
 
@@ -416,13 +453,7 @@ class Gen(object):
     def select(l, i):
         if not isinstance(l, SList):
             raise Unsupported('subscript of non-list')
-        v = z3.Select(l.arr, i)
-        if l.nested():
-            inner = SList(v, z3.Select(l.ilen, i), l.et[1])
-            if inner.nested():
-                raise Unsupported('3-level nesting')
-            return inner
-        return v
+        return l.row(i)
 
     # ---------------------------------------------------------------- program expressions
     def expr(self, n, path):
@@ -622,6 +653,9 @@ class Gen(object):
         if l.nested():
             path.hyps.append(('forall', [k], ('implies', atom(z3.And(0 <= k, k < n)),
                                               atom(z3.Select(out.ilen, k) == z3.Select(l.ilen, lo + k)))))
+        if l.deep():
+            path.hyps.append(('forall', [k], ('implies', atom(z3.And(0 <= k, k < n)),
+                                              atom(z3.Select(out.isub, k) == z3.Select(l.isub, lo + k)))))
         return out
 
     def list_literal(self, items):
@@ -631,12 +665,11 @@ class Gen(object):
             return STuple(items)          # heterogeneous list literal, e.g. `return [ctrlpts, weights]`: fixed arity
         if isinstance(items[0], SList):
             et = ('list', items[0].et)
-            arr = z3.K(I, items[0].arr)
-            il = z3.K(I, z3.IntVal(0))
+            out = SList(z3.K(I, items[0].arr), z3.IntVal(len(items)), et, z3.K(I, z3.IntVal(0)),
+                        z3.K(I, items[0].ilen) if items[0].nested() else None)
             for k, it in enumerate(items):
-                arr = z3.Store(arr, k, it.arr)
-                il = z3.Store(il, k, it.ln)
-            return SList(arr, z3.IntVal(len(items)), et, il)
+                out = out.with_row(z3.IntVal(k), it)
+            return out
         if any(is_real(x) for x in items):
             items = [to_real(x) for x in items]
             et = 'real'
@@ -717,6 +750,8 @@ class Gen(object):
         if isinstance(val, SList):
             out = fresh_list('comp', ('list', val.et), fresh('comp_len', I))
             body = [atom(z3.Select(out.arr, k) == val.arr), atom(z3.Select(out.ilen, k) == val.ln)]
+            if val.nested():
+                body.append(atom(z3.Select(out.isub, k) == val.ilen))
         else:
             if is_bool(val):
                 raise Unsupported('bool list')
@@ -895,8 +930,9 @@ class Gen(object):
         if isinstance(v, SList):
             if not l.nested():
                 # first append to an empty literal list fixes the element type
-                l = SList(z3.K(I, v.arr), l.ln, ('list', v.et), z3.K(I, z3.IntVal(0)))
-            return SList(z3.Store(l.arr, l.ln, v.arr), l.ln + 1, l.et, z3.Store(l.ilen, l.ln, v.ln))
+                l = SList(z3.K(I, v.arr), l.ln, ('list', v.et), z3.K(I, z3.IntVal(0)),
+                          z3.K(I, v.ilen) if v.nested() else None)
+            return l.with_row(l.ln, v).resized(l.ln + 1)
         if l.et == 'real' and is_int(v):
             if z3.is_int_value(l.ln) and l.ln.as_long() == 0:
                 return SList(z3.Store(z3.K(I, z3.IntVal(0)), l.ln, v), l.ln + 1, 'int')
@@ -994,6 +1030,10 @@ class Gen(object):
                 l.ilen = z3.Const('ilen_' + name, z3.ArraySort(I, I))
                 q = z3.Int('k?')
                 hyps.append(('forall', [q], atom(z3.Select(l.ilen, q) >= 0)))
+            if l.deep():
+                l.isub = z3.Const('isub_' + name, z3.ArraySort(I, z3.ArraySort(I, I)))
+                q2 = z3.Int('k2?')
+                hyps.append(('forall', [q, q2], atom(z3.Select(z3.Select(l.isub, q), q2) >= 0)))
             hyps.append(atom(l.ln >= 0))
             return l
         if isinstance(t, tuple) and t[0] == 'tuple':
@@ -1044,8 +1084,7 @@ class Gen(object):
                     outer = path.env[base.value.id]
                     i = self.expr(base.slice, path)
                     self.index(outer, i, path, line)
-                    path.env[base.value.id] = SList(z3.Store(outer.arr, i, val.arr), outer.ln, outer.et,
-                                                    z3.Store(outer.ilen, i, val.ln))
+                    path.env[base.value.id] = outer.with_row(i, val)
                     return
                 raise Unsupported('slice assignment')
             if isinstance(base, ast.Name):
@@ -1061,14 +1100,12 @@ class Gen(object):
                 if isinstance(tgt.slice, ast.Slice) and tgt.slice.lower is None and tgt.slice.upper is None \
                         and tgt.slice.step is None and isinstance(val, SList) and not val.nested():
                     self.index(outer, i, path, line)
-                    path.env[base.value.id] = SList(z3.Store(outer.arr, i, val.arr), outer.ln, outer.et,
-                                                    z3.Store(outer.ilen, i, val.ln))
+                    path.env[base.value.id] = outer.with_row(i, val)
                     return
                 row = self.index(outer, i, path, line)
                 j = self.expr(tgt.slice, path)
                 newrow = self.store(row, j, val, path, line)
-                path.env[base.value.id] = SList(z3.Store(outer.arr, i, newrow.arr), outer.ln, outer.et,
-                                                z3.Store(outer.ilen, i, newrow.ln))
+                path.env[base.value.id] = outer.with_row(i, newrow)
                 return
         raise Unsupported('assignment target')
 
@@ -1079,9 +1116,7 @@ class Gen(object):
             i = l.ln + i
         self.oblige('store-index-in-range@%d' % line, path, atom(z3.And(i >= 0, i < l.ln)), 'safety', line)
         if isinstance(val, SList):
-            if not l.nested():
-                raise Unsupported('storing a list into a flat list')
-            return SList(z3.Store(l.arr, i, val.arr), l.ln, l.et, z3.Store(l.ilen, i, val.ln))
+            return l.with_row(i, val)
         if l.nested():
             raise Unsupported('storing a scalar into a nested list')
         if l.et == 'real':
@@ -1169,6 +1204,15 @@ class Gen(object):
                 val = SList(z3.K(I, z3.RealVal(0) if et == 'real' else z3.IntVal(0)) if not isinstance(et, tuple)
                             else fresh('empty', z3.ArraySort(I, sort_of(et))), z3.IntVal(0), et,
                             z3.K(I, z3.IntVal(0)) if isinstance(et, tuple) else None)
+            if len(st.targets) == 1 and isinstance(st.targets[0], ast.Name) and st.targets[0].id in self.c.get('locals', {}) \
+                    and isinstance(st.value, ast.ListComp) and isinstance(st.value.elt, ast.List) and not st.value.elt.elts \
+                    and isinstance(val, SList):
+                # [[] for _ in range(n)]: n empty rows whose element type comes from the contract's `locals` declaration
+                et = self.c['locals'][st.targets[0].id][1]
+                typed = fresh_list(st.targets[0].id, et, val.ln)
+                kq = z3.Int('k?')
+                path.hyps.append(('forall', [kq], atom(z3.Select(typed.ilen, kq) == 0)))
+                val = typed
             for t in st.targets:
                 self.assign(t, val, path, st.lineno)
             return [path]
